@@ -123,8 +123,30 @@ def similar_family():
         res["validate"] = dict(case, expect={"similar_" + q.replace(" ", ""): ",".join(gotp)})
         return res
     return Family("similar-paths-unsorted-registry", mk, run, target_prefixes=1)
+def similar_corpus_family(name, reg):
+    """every final identifier that occurs in the registry (also of single-segment prelude paths such as Option), asked
+    for bare, below another module and below its own module path"""
+    idents = []
+    for t in reg:
+        if t["path"] and t["path"][-1] not in idents: idents.append(t["path"][-1])
+    qs = []
+    for x in idents: qs += [x, "other::" + x, "core::option::" + x]
+    def mk(eng): return eng.choose([(q, True) for q in qs])
+    def run(eng, q):
+        regv = to_engine(reg); res = {"violations": [], "outcome": "Err"}
+        v = eng.call("similar_type_paths_in_registry", [], [Slot([regv], 0), Slot([syn_path(q)], 0)])
+        gotp = []
+        for x in deref(v).items:
+            ts = TS(); models_tok.to_tokens(eng, x, ts); gotp.append(c08.norm(eng_tok_str(ts)))
+        wantp = ["::".join(t["path"]) for t in reg if t["path"] and t["path"][-1] == q.split("::")[-1]]
+        case = {"op": "validate", "reg": regdsl.encode(reg).hex(), "set": [], "similar": [q]}
+        if gotp != wantp: res["violations"].append({"what": "similar paths for %s are %s, expected %s (registry order)" % (q, gotp, wantp), "case": case, "kind": "similar", "q": q})
+        if hash(q) % 5 == 0: res["validate"] = dict(case, expect={"similar_" + q.replace(" ", ""): ",".join(gotp)})
+        return res
+    return Family(name, mk, run, target_prefixes=1)
 def families(eng, tier, seed):
     C = corpus(); fams = [similar_family()]
+    for n in (("containers", "collections", "modules") if tier == "quick" else list(C)): fams.append(similar_corpus_family("similar-paths-" + n, C[n]))
     for n in ("modules", "enum", "generics", "collections"):
         fams.append(make_family("validate-%s" % n, C[n], 2 if tier == "quick" else 3, "fork" if n != "generics" or tier == "thorough" else "reversed"))
     return fams
